@@ -22,6 +22,7 @@ PARTS += ["utilint"]      # mir_eval/util.py interval pre-processing -> MirGen/U
 PARTS += ["multipitch"]   # mir_eval/multipitch.py count functions, resampling, metrics -> MirGen/Multipitch.lean (C18)
 PARTS += ["evglue"]       # event-metric glue: util.match_events / _fast_hit_windows, onset / beat F, segment.detection / deviation -> MirGen/EvGlue.lean (C04)
 PARTS += ["chordcmp"]     # mir_eval/chord.py comparison functions -> MirGen/ChordCmp.lean (C11)
+PARTS += ["hierarchy"]    # mir_eval/hierarchy.py T-/L-measure kernels -> MirGen/Hierarchy.lean (C17)
 
 
 def write_if_changed(path, text):
